@@ -15,7 +15,7 @@ package proposal
 //@   props C01, C02, C07
 //@   probe prevIndex: proposal.Status.PrevIndex
 //@   probe txIndex: proposal.TransactionIndex
-//@   requires r != nil && proposal != nil && proposal.tracked && proposalSnapshotted(proposal) && proposalWellFormed(proposal) && proposalInv(proposal)
+//@   requires r != nil && proposal != nil && proposal.tracked && proposalSnapshotted(proposal) && proposalWellFormed(proposal) && proposalInv(proposal) && proposalKeyed(proposal)
 //@   requires proposal.Status.Phases.Abort != nil
 //@   requires proposal.Status.PrevIndex < proposal.TransactionIndex
 //@   ensures {C01,C02} aborted-advances-both: old(proposal.Status.Phases.Abort.State) == configapi.ProposalAbortPhase_ABORTING && proposal.Status.Phases.Abort.State == configapi.ProposalAbortPhase_ABORTED ==> storedCfgCommitted >= proposal.TransactionIndex && storedCfgApplied >= proposal.TransactionIndex
@@ -30,7 +30,7 @@ package proposal
 
 //@ func (*Reconciler).reconcileInitialize
 //@   props C02, C07
-//@   requires r != nil && proposal != nil && proposal.tracked && proposalSnapshotted(proposal) && proposalWellFormed(proposal) && proposalInv(proposal)
+//@   requires r != nil && proposal != nil && proposal.tracked && proposalSnapshotted(proposal) && proposalWellFormed(proposal) && proposalInv(proposal) && proposalKeyed(proposal)
 //@   requires proposal.Status.Phases.Initialize != nil
 //@   ensures {C02} link-in-log-order: proposal.Status.PrevIndex != old(proposal.Status.PrevIndex) ==> old(proposal.Status.PrevIndex) == 0 && proposal.Status.PrevIndex == readCfgProposed && readCfgProposed < proposal.TransactionIndex
 //@   ensures {C02} initialized-only-when-proposed: initState(proposal) == configapi.ProposalInitializePhase_INITIALIZED && old(initState(proposal)) == configapi.ProposalInitializePhase_INITIALIZING ==> readCfgOK && readCfgProposed >= proposal.TransactionIndex
@@ -39,7 +39,7 @@ package proposal
 
 //@ func (*Reconciler).reconcileValidate
 //@   props C01, C02, C05, C06, C07
-//@   requires r != nil && proposal != nil && proposal.tracked && proposalSnapshotted(proposal) && proposalWellFormed(proposal) && proposalInv(proposal)
+//@   requires r != nil && proposal != nil && proposal.tracked && proposalSnapshotted(proposal) && proposalWellFormed(proposal) && proposalInv(proposal) && proposalKeyed(proposal)
 //@   requires proposal.Status.Phases.Validate != nil
 //@   ensures {C02} waits-for-predecessor: validateState(proposal) != old(validateState(proposal)) ==> readCfgOK && (proposal.Status.PrevIndex == 0 || readCfgCommitted == proposal.Status.PrevIndex)
 //@   ensures {C01,C05,C06} validation-writes-no-config: cfgValueWrites == old(cfgValueWrites) && cfgStatusWrites == old(cfgStatusWrites) && cfgCreates == old(cfgCreates) && deviceSetCalls == old(deviceSetCalls)
@@ -48,9 +48,11 @@ package proposal
 //@   ensures {C06} only-latest: old(validateState(proposal)) == configapi.ProposalValidatePhase_VALIDATING && isRollback(proposal) && readCfgOK && lastGetPluginOK && (proposal.Status.PrevIndex == 0 || readCfgCommitted == proposal.Status.PrevIndex) && readCfgIndex != rollbackTarget(proposal) ==> validateState(proposal) == configapi.ProposalValidatePhase_FAILED && proposal.Status.Phases.Validate.Failure != nil && proposal.Status.Phases.Validate.Failure.Type == configapi.Failure_FORBIDDEN && proposal.Status.RollbackValues == old(proposal.Status.RollbackValues) && proposal.Status.RollbackIndex == old(proposal.Status.RollbackIndex) && validateCalls == old(validateCalls)
 //@   ensures {C06} change-records-rollback-index: validateState(proposal) == configapi.ProposalValidatePhase_VALIDATED && old(validateState(proposal)) == configapi.ProposalValidatePhase_VALIDATING && isChange(proposal) ==> proposal.Status.RollbackIndex == readCfgIndex && proposal.Status.RollbackValues != nil
 
+//@ spec pvDeleted(ref int) bool = asPtr(ref, "*configapi.PathValue").Deleted
+
 //@ func (*Reconciler).reconcileCommit
-//@   props C01, C02, C07
-//@   requires r != nil && proposal != nil && proposal.tracked && proposalSnapshotted(proposal) && proposalWellFormed(proposal) && proposalInv(proposal)
+//@   props C01, C02, C03, C07
+//@   requires r != nil && proposal != nil && proposal.tracked && proposalSnapshotted(proposal) && proposalWellFormed(proposal) && proposalInv(proposal) && proposalKeyed(proposal)
 //@   requires proposal.Status.Phases.Commit != nil
 //@   requires proposal.Status.PrevIndex < proposal.TransactionIndex
 //@   ensures {C02,C07} merge-only-at-predecessor: cfgValueWrites > old(cfgValueWrites) ==> cfgValueWrites == old(cfgValueWrites) + 1 && readCfgOK && readCfgCommitted == proposal.Status.PrevIndex && old(commitState(proposal)) == configapi.ProposalCommitPhase_COMMITTING
@@ -58,11 +60,19 @@ package proposal
 //@   ensures {C01} commit-cannot-fail: old(commitState(proposal)) == configapi.ProposalCommitPhase_COMMITTING && err == nil && readCfgOK ==> commitState(proposal) == configapi.ProposalCommitPhase_COMMITTED
 //@   ensures {C01,C02} committed-only-after-merge-or-skip: commitState(proposal) == configapi.ProposalCommitPhase_COMMITTED && old(commitState(proposal)) == configapi.ProposalCommitPhase_COMMITTING ==> readCfgOK && (readCfgCommitted != proposal.Status.PrevIndex || storedCfgCommitted == proposal.TransactionIndex)
 //@   ensures {C02} commit-sends-nothing: deviceSetCalls == old(deviceSetCalls) && cfgStatusWrites == old(cfgStatusWrites) && cfgCreates == old(cfgCreates)
-//@   ensures {C07} merge-sets-config-index: cfgValueWrites > old(cfgValueWrites) && err == nil && isChange(proposal) ==> true
+//@   ensures {C03} commit-sets-live-values: cfgValueWrites > old(cfgValueWrites) ==> (forall p string :: (p in updatedChangeValues) && !updatedChangeValues[p].Deleted ==> writtenValuesDom[p] && writtenValuesVal[p] == updatedChangeValues[p])
+//@   ensures {C03} commit-deletes: cfgValueWrites > old(cfgValueWrites) ==> (forall p string :: (p in updatedChangeValues) && updatedChangeValues[p].Deleted ==> !(writtenValuesDom[p] && writtenValuesVal[p] != 0 && !pvDeleted(writtenValuesVal[p])))
+//@   ensures {C03} untouched-live-values-stay: cfgValueWrites > old(cfgValueWrites) ==> (forall p string :: readValuesDom[p] && readValuesVal[p] != 0 && !pvDeleted(readValuesVal[p]) && !(p in updatedChangeValues) ==> writtenValuesDom[p] && writtenValuesVal[p] == readValuesVal[p])
+//@   ensures {C03} commit-adds-nothing-else: cfgValueWrites > old(cfgValueWrites) ==> (forall p string :: writtenValuesDom[p] && !(p in updatedChangeValues) ==> readValuesDom[p] && writtenValuesVal[p] == readValuesVal[p])
+//@   loop 1 invariant config != nil && config.Values != nil && config.Values != updatedChangeValues && cfgValueWrites == old(cfgValueWrites) && cfgStatusWrites == old(cfgStatusWrites) && proposalStatusWrites == old(proposalStatusWrites)
+//@   loop 1 invariant forall p string :: visited(1)[p] && (p in updatedChangeValues) && !updatedChangeValues[p].Deleted ==> (p in config.Values) && config.Values[p] == updatedChangeValues[p]
+//@   loop 1 invariant forall p string :: visited(1)[p] && (p in updatedChangeValues) && updatedChangeValues[p].Deleted ==> !((p in config.Values) && config.Values[p] != nil && !config.Values[p].Deleted)
+//@   loop 1 invariant forall p string :: readValuesDom[p] && readValuesVal[p] != 0 && !pvDeleted(readValuesVal[p]) && !(p in updatedChangeValues) ==> (p in config.Values) && config.Values[p] == readValuesVal[p]
+//@   loop 1 invariant forall p string :: (p in config.Values) && !(p in updatedChangeValues) ==> readValuesDom[p] && config.Values[p] == readValuesVal[p]
 
 //@ func (*Reconciler).reconcileApply
 //@   props C02, C04, C07, C10, C11
-//@   requires r != nil && proposal != nil && proposal.tracked && proposalSnapshotted(proposal) && proposalWellFormed(proposal) && proposalInv(proposal)
+//@   requires r != nil && proposal != nil && proposal.tracked && proposalSnapshotted(proposal) && proposalWellFormed(proposal) && proposalInv(proposal) && proposalKeyed(proposal)
 //@   requires proposal.Status.Phases.Apply != nil
 //@   requires proposal.Status.PrevIndex < proposal.TransactionIndex
 //@   ensures {C02,C07} apply-in-order: deviceSetCalls > old(deviceSetCalls) ==> deviceSetCalls == old(deviceSetCalls) + 1 && readCfgOK && readCfgApplied < proposal.TransactionIndex && (proposal.Status.PrevIndex == 0 || readCfgApplied == proposal.Status.PrevIndex) && old(applyState(proposal)) == configapi.ProposalApplyPhase_APPLYING
@@ -81,7 +91,7 @@ package proposal
 
 //@ func (*Reconciler).reconcileProposal
 //@   props C01, C02, C07
-//@   requires r != nil && proposal != nil && proposal.tracked && proposalSnapshotted(proposal) && proposalWellFormed(proposal) && proposalInv(proposal)
+//@   requires r != nil && proposal != nil && proposal.tracked && proposalSnapshotted(proposal) && proposalWellFormed(proposal) && proposalInv(proposal) && proposalKeyed(proposal)
 //@   requires proposal.Status.PrevIndex < proposal.TransactionIndex
 //@   ensures {C01,C02} dispatch-commit-sends-nothing: old(proposal.Status.Phases.Apply) == nil ==> deviceSetCalls == old(deviceSetCalls)
 //@   ensures {C01} dispatch-abort-first: old(proposal.Status.Phases.Apply) == nil && old(proposal.Status.Phases.Abort) != nil ==> cfgValueWrites == old(cfgValueWrites)
@@ -112,5 +122,5 @@ package proposal
 //@   use under-slash-is-slashPrefix
 //@   ensures {C03} no-tombstone-above-live: value != nil && !value.Deleted ==> (forall t string :: tomb(values, t) ==> !under(path, t))
 //@   ensures {C03} only-tombstone-above-is-cleared: value != nil && !value.Deleted && (forall t string :: old(tomb(values, t)) && under(path, t) ==> removedPath != "" && t == removedPath) ==> (forall t string :: tomb(values, t) ==> !under(path, t))
-//@   ensures {C03} nothing-else-changes: forall k string :: k != path && k != removedPath ==> (k in values) == old(k in values) && values[k] == old(values[k])
+//@   ensures {C03} nothing-else-changes: forall k string :: k != path && (removedPath == "" || k != removedPath) ==> (k in values) == old(k in values) && values[k] == old(values[k])
 //@   loop 1 invariant (path in values) && values[path] == value && (parent == "" || slashPrefix(path, parent)) && (forall t string :: slashPrefix(path, t) && (parent == "" || len(t) > len(parent)) ==> !old(tomb(values, t))) && (forall k string :: k != path ==> (k in values) == old(k in values) && values[k] == old(values[k]))
